@@ -1,6 +1,42 @@
-From Coq Require Import List.
-From PG Require Import Graph.MGraph C12.Model.
-(* placeholder until the proofs land *)
-Theorem c12_placeholder : forall g, length (moral_edges g) = length (moral_edges g).
-Proof. reflexivity. Qed.
-Print Assumptions c12_placeholder.
+(* C12 -- Moral graph adjacency is collider-connectedness and decides separation. Statements: C12/Spec.v *)
+From Coq Require Import List Arith.
+From PG Require Import Base.ListSet Graph.MGraph Graph.MSep C12.Model C12.Enum C12.Spec C12.Proofs C12.Bounded_3.
+Import ListNotations.
+
+(* clause 1 (all graphs): adjacent in the moral graph <-> joined by an edge or by a path whose inner nodes are all colliders *)
+Theorem moral_adjacency : forall g a b, wf g -> a <> b -> In a (V g) -> In b (V g) ->
+  (moral_adj g a b = true <-> skel_adj g a b = true \/ collider_connected g a b).
+Proof. exact C12.Proofs.moral_adjacency. Qed.
+Print Assumptions moral_adjacency.
+
+(* the result has exactly G's nodes; its edge list is the relation moral_adj; read as a formal graph its adjacency is moral_adj *)
+Theorem moral_nodes : forall g, V (moral_graph g) = V g.
+Proof. exact C12.Proofs.moral_nodes. Qed.
+Print Assumptions moral_nodes.
+
+Theorem moral_edges_spec : forall g a b,
+  In (a, b) (moral_edges g) <-> In a (V g) /\ In b (V g) /\ a < b /\ moral_adj g a b = true.
+Proof. exact C12.Proofs.moral_edges_spec. Qed.
+Print Assumptions moral_edges_spec.
+
+Theorem moral_graph_adjacent : forall g a b, In a (V g) -> In b (V g) ->
+  adjacent (moral_graph g) a b = moral_adj g a b.
+Proof. exact C12.Proofs.moral_graph_adjacent. Qed.
+Print Assumptions moral_graph_adjacent.
+
+(* plain DAGs (more generally: no bidirected edge): skeleton + married co-parents = networkx.moral_graph *)
+Theorem moral_dag_is_nx : forall g a b, B g = [] -> In a (V g) -> In b (V g) ->
+  (moral_adj g a b = true <->
+   a <> b /\ (has_d g a b = true \/ has_d g b a = true \/ has_u g a b = true \/
+              exists c, In c (V g) /\ has_d g a c = true /\ has_d g b c = true)).
+Proof. exact C12.Proofs.moral_dag_is_nx. Qed.
+Print Assumptions moral_dag_is_nx.
+
+(* clause 2, for every graph of the domain of C01 on at most 3 nodes and all pairwise disjoint X, Y, Z:
+   m-separated (by paths, Graph/MSep.v) <-> Z is a vertex cut in the moral graph of the anterior subgraph *)
+Theorem moral_criterion_bounded_3 : forall n ks, n <= 3 -> in_admg n ks \/ in_anc n ks ->
+  forall X Y Z, In X (sublists (seq 0 n)) -> In Y (sublists (seq 0 n)) -> In Z (sublists (seq 0 n)) ->
+    disjointb X Y = true -> disjointb X Z = true -> disjointb Y Z = true ->
+    (msep (graph_of n ks) X Y Z <-> moral_sep (graph_of n ks) X Y Z = true).
+Proof. exact C12.Bounded_3.moral_criterion_bounded_3. Qed.
+Print Assumptions moral_criterion_bounded_3.
